@@ -15,6 +15,7 @@ import numpy as np
 from ...Geoms import AsCoords, Normalize
 from .._utils import (
     _IModel,
+    Check_Heterogeneous_Parameters,
     Heterogeneous_Array,
     KelvinMandel_Matrix,
     Project_Kelvin,
@@ -428,6 +429,7 @@ class Isotropic(_Elastic):
 
         E = self.E
         v = self.v
+        Check_Heterogeneous_Parameters(E, v)
 
         mu = self.get_mu()
         lmbda = self.get_lambda()
@@ -656,6 +658,7 @@ class TransverselyIsotropic(_Elastic):
         vt = self.vt
         vl = self.vl
         Gl = self.Gl
+        Check_Heterogeneous_Parameters(El, Et, Gl, vl, vt)
         Gt = self.Gt
 
         kt = self.kt
@@ -981,6 +984,7 @@ class Orthotropic(_Elastic):
             dim = self.dim
 
         E1, E2, E3, G23, G13, G12, v23, v13, v12 = self.__get_params()
+        Check_Heterogeneous_Parameters(E1, E2, E3, G23, G13, G12, v23, v13, v12)
 
         sum = E1 + E2 + E3 + G23 + G13 + G12 + v23 + v13 + v12
         dtype = object if isinstance(sum, np.ndarray) else float
